@@ -202,6 +202,11 @@ func New(h host.Host, options ...Option) (_ *IpfsDHT, err error) {
 	if err := cfg.Validate(); err != nil {
 		return nil, err
 	}
+	// A lookup keeps up to Concurrency requests in flight and buffers as many
+	// updates; with less than one it could never make progress.
+	if cfg.Concurrency < 1 {
+		return nil, fmt.Errorf("dht concurrency must be at least 1, got %d", cfg.Concurrency)
+	}
 
 	dht, err := makeDHT(h, cfg)
 	if err != nil {
